@@ -9,7 +9,7 @@ A step is a JSON dict
   strategy              "all" | "comp" | "bt";  enum=True passes the Strategy member instead of the string
   tpl_form              "graph" (fresh nx graph) | "shared" (ONE nx graph object per rsmi reused by later steps) |
                         "rule" (SynRule object shared per rsmi, forward direction only) | "rsmi" (the string; full ITS only)
-  sub_form              "smiles" | "graph" | "syngraph" | "sharedgraph" (one nx graph object per smiles)
+  sub_form              "smiles" | "graph" | "syngraph" | "sharedgraph" (one nx graph object per smiles) | "graph0" (node ids from 0)
   ctor                  "init" | "from_smiles"
   opts                  result-neutral constructor options (automorphism, embed_threshold = the default, canonicaliser="shared")
   mutate                after reading: empty the returned ITS graphs and the returned lists in place
@@ -85,6 +85,8 @@ def run_steps(spec):
                         sg = shared[("sub", st["sub"])] = smiles_to_graph(st["sub"], use_index_as_atom_map=False, drop_non_aam=False)
                 else:
                     sg = smiles_to_graph(st["sub"], use_index_as_atom_map=False, drop_non_aam=False)
+                if sform == "graph0":          # zero-based node ids: the id 0 is falsy
+                    sg = nx.relabel_nodes(sg, {x: x - 1 for x in sg.nodes}, copy=True)
                 sub = SynGraph(sg, GraphCanonicaliser()) if sform == "syngraph" else sg
             strategy = Strategy.from_string(st["strategy"]) if st.get("enum") else st["strategy"]
             if st.get("ctor") == "from_smiles":
@@ -144,7 +146,8 @@ def fresh(spec, timeout=300):
 # ------------------------------------------------------------------ building the steps of a case
 
 _FORMS = [dict(), dict(tpl_form="shared"), dict(sub_form="graph"), dict(tpl_form="rule"), dict(sub_form="syngraph", enum=True),
-          dict(tpl_form="shared", sub_form="sharedgraph"), dict(ctor="from_smiles"), dict(tpl_form="rsmi"), dict(enum=True, tpl_form="shared")]
+          dict(tpl_form="shared", sub_form="sharedgraph"), dict(ctor="from_smiles"), dict(tpl_form="rsmi"), dict(enum=True, tpl_form="shared"),
+          dict(sub_form="graph0")]
 # embed_pre_filter=True is NOT result-neutral (documented guard: it empties the result when the product of the per-node
 # candidate counts exceeds threshold * 10000, e.g. a 6-atom pattern on a 67-atom NAD substrate) and is left to C06
 _OPTS = [None, dict(automorphism=True), None, dict(embed_threshold=5000), dict(canonicaliser="shared"), None, dict(automorphism=False),
